@@ -233,17 +233,20 @@ def replay_names(chk, cases, tmpdir):
             if known:
                 if o[0] != "ok" or o[1] is None or o[1].units is not wantU or (o[1] >> wantU) != float(prefix):
                     # the value itself must be the number in that unit (exact for the read-back of the same unit? no: rounding)
-                    if o[0] == "ok" and o[1] is not None and o[1].units is wantU and abs((o[1] >> wantU) - float(prefix)) <= 1e-9 * abs(float(prefix)):
+                    if o[0] == "ok" and o[1] is not None and o[1].units is wantU and abs((o[1] >> wantU) - float(prefix)) <= 1e-9 * max(1.0, abs(float(prefix))):
                         pass
                     else:
                         chk.violation("C18.NameNotResolved", key, {**det, "text": text, "got": safe(o[1])})
             elif o[0] == "ok" and o[1] is not None:
                 chk.violation("C18.UnknownNameSelectsUnit", key, {**det, "text": text, "got": safe(o[1])})
         elif entry == "value_preferred_name":
-            o = impl.outcome(_parse_value, 2.5, s)
+            # the bare number: a float for the plain variant, else the number as a string in every form of the grammar
+            num = 2.5 if prefix == "1" else (" " if c["variant"][1] in ("lead", "both") else "") + prefix
+            o = impl.outcome(_parse_value, num, s)
             if known:
-                if o[0] != "ok" or o[1] is None or o[1].units is not wantU:
-                    chk.violation("C18.NameNotResolved", key, {**det, "got": safe(o[1])})
+                if o[0] != "ok" or o[1] is None or o[1].units is not wantU or \
+                        abs((o[1] >> wantU) - float(num)) > 1e-9 * max(1.0, abs(float(num))):
+                    chk.violation("C18.NameNotResolved", key, {**det, "number": num, "got": safe(o[1])})
             elif o[0] == "ok" and o[1] is not None:
                 chk.violation("C18.UnknownNameSelectsUnit", key, {**det, "got": safe(o[1])})
         elif entry in ("config_file_preferred", "config_file_step_units"):
